@@ -1322,7 +1322,7 @@ pub fn macro_cases(out: &mut Out) {
 }
 
 // dbase and geo-types producers live in their own files
-pub use crate_dbf::{cases_dbf, cases_dbf_c10, cases_pairs_c15, oracle_c08, oracle_path_overwrite, v_dbfhist, v_prhist, PairOp};
+pub use crate_dbf::{cases_dbf, cases_dbf_c10, oracle_batch_rejected, cases_pairs_c15, oracle_c08, oracle_path_overwrite, v_dbfhist, v_prhist, PairOp};
 
 /// replay of oracle-only scenarios (`scenario <name> <args>` lines in replay files)
 pub fn oracle_scenario(prop: &str, a: &[String]) -> Option<Verdict> {
@@ -1339,6 +1339,9 @@ pub fn oracle_scenario(prop: &str, a: &[String]) -> Option<Verdict> {
             Some(crate::round3::oracle_header_code_any_version(code, v.to_be_bytes()))
         }
         (_, Some("path-hostile-index")) => Some(crate::round8::oracle_path_hostile_index(a.get(1)?.parse().ok()?)),
+        (_, Some("bulk-read-nulls")) => Some(crate::round9::oracle_bulk_read_with_nulls()),
+        (_, Some("bare-record-code")) => Some(crate::round9::oracle_bare_record_code(a.get(1)?.parse().ok()?)),
+        (_, Some("batch-rejected")) => Some(oracle_batch_rejected(a.get(1)?, a.get(2)?.parse().ok()?, a.get(3)?.parse().ok()?)),
         (_, Some("nth-after-failed-nth")) => Some(crate::round8::oracle_nth_after_failed_nth()),
         (_, Some("truncated-empty-shapes")) => Some(crate::round8::oracle_truncated_empty_shapes(a.get(1)?.parse().ok()?, a.get(2)?.parse().ok()?)),
         (_, Some("failed-write-then-finalize")) => Some(crate::round7::oracle_failed_write_then_finalize(a.get(1)?, a.get(2)?.parse().ok()?, a.get(3)?.parse().ok()?)),
